@@ -320,6 +320,14 @@ def hist_worker(case):
                     else:
                         k0 = content["vars"][0][0]
                         sim.update_variable(k0, sim.y0[k0])
+                    # division by zero is outside the model: when building the model's cache (the first thing the
+                    # conversion does) divides by zero at the current parameter values, the Simulator falls back because
+                    # of that, not because the model does not convert -- the history stops here and is counted
+                    keep_ = sim.model._cache  # noqa: SLF001
+                    try:
+                        sim.model._create_cache()  # noqa: SLF001  (raises ZeroDivisionError -> handled below)
+                    finally:
+                        sim.model._cache = keep_  # noqa: SLF001  the closure watches this object: leave it in place
                     out["outs"].append(None)
                 else:
                     jf = sim.integrator.jacobian
